@@ -48,10 +48,22 @@ def murmur3(seed, data):
     return ref_murmur3(seed, data)
 
 
-@spec
+@spec(opaque=True, sig=[Int, Int, Bytes, Int], ret=Int)
 def bloom_index(i, tweak, data, nbits):
-    """BIP37: bit selected by hash function i"""
+    """BIP37: bit selected by hash function i. Opaque in proofs (unfolded where bloom_hash is verified): the modulus is
+    the symbolic filter size, and one mod by a non-constant turns every query that mentions it into non-linear
+    arithmetic; users of the schedule only need that equal arguments select equal bits"""
     return murmur3((i * 0xFBA4C795 + tweak) % 2**32, data) % nbits
+
+
+@spec
+def bit_set(v, idx):
+    """bit idx of the filter data (bit k of byte idx // 8, least significant first - BIP37), without a
+    symbolic exponent: one disjunct per bit position"""
+    return ((idx % 8 == 0 and v[idx // 8] % 2 == 1) or (idx % 8 == 1 and (v[idx // 8] // 2) % 2 == 1)
+            or (idx % 8 == 2 and (v[idx // 8] // 4) % 2 == 1) or (idx % 8 == 3 and (v[idx // 8] // 8) % 2 == 1)
+            or (idx % 8 == 4 and (v[idx // 8] // 16) % 2 == 1) or (idx % 8 == 5 and (v[idx // 8] // 32) % 2 == 1)
+            or (idx % 8 == 6 and (v[idx // 8] // 64) % 2 == 1) or (idx % 8 == 7 and (v[idx // 8] // 128) % 2 == 1))
 
 
 def ref_bits_after(vdata, nhash, tweak, elems):
